@@ -25,6 +25,11 @@ def family_result(name, tier):
                    open(os.path.abspath(__file__)).read(), open(vlib.__file__).read())
     cdir = os.path.join(vlib.BUILD, "run")
     os.makedirs(cdir, exist_ok=True)
+    # work directories of check processes that no longer exist (killed runs) are removed
+    for d in os.listdir(cdir):
+        m = re.match(r".*\.(\d+)\.d$", d)
+        if m and not os.path.exists("/proc/%s" % m.group(1)):
+            shutil.rmtree(os.path.join(cdir, d), ignore_errors=True)
     cpath = os.path.join(cdir, "%s-%s.pkl" % (name, key))
     if os.path.exists(cpath) and time.time() - os.path.getmtime(cpath) < 3 * 3600:
         with open(cpath, "rb") as f:
